@@ -562,6 +562,7 @@ def oracle_C15(lhs, o, t, om=None):
     kind, tid, a16, init, pre = lhs_fields(lhs)
     n = hexlen(pre)
     if o["cls"] in ("PANIC", "MEMFAULT"): return f"emplacement ended with {o['cls']}"
+    if "WRAP-DIFF" in o.get("raw_tail", ""): return "FlatWrap::new_in_place over the same bytes gave a different result, different bytes or a different size() than new_in_place"
     w = oracle_need(lhs, o, t, om)
     if w: return w
     if a16 % t["align"] != 0:
